@@ -135,7 +135,8 @@ CHECKS = {
         "assumptions": ["testing/synctest fake clock", "rapid v1.3.0; go1.26.8"],
         "jobs": [{"pkg": "c20time", "run": "TestSleepContext|TestJitterTicker", "kinds": ["sleep", "ticker"], "scale_thorough": 10, "shards_thorough": 16},
                  {"pkg": "c20time", "race": True, "run": "TestTickerRace", "kinds": ["ticker-race"], "scale_thorough": 4, "shards_thorough": 4},
-                 {"pkg": "c20old", "kinds": ["sleep-old-timers", "ticker-starved", "ticker-reset-storm"], "scale_thorough": 4, "shards_thorough": 4}],
+                 {"pkg": "c20old", "run": "TestSleepOldTimers|TestTickerStarved", "kinds": ["sleep-old-timers", "ticker-starved"], "scale_thorough": 4, "shards_thorough": 4},
+                 {"pkg": "c20old", "run": "TestTickerResetStorm", "kinds": ["ticker-reset-storm"], "shards_quick": 4, "scale_quick": 4, "scale_thorough": 16, "shards_thorough": 8}],
     },
     "C16": {
         "level": "exploration",
